@@ -6,4 +6,13 @@ OUTSIDE = ("statistical quality of ids / 0x20 bits (RNG is a stub); kernel socke
 ASSUMPTIONS = mjobs.ASSUMPTIONS
 
 def jobs(tier, seed):
-    return mjobs.answer_jobs(tier)
+    J = mjobs.answer_jobs(tier)
+    for i, nm in enumerate(["aB1.c", "x-Y_z.9", "abcdefghi"]):
+        J.append(dict(name="qid_0x20_%d" % i, harness="qid_0x20.c", defines=['-DNAME="%s"' % nm],
+                      real=["src/lib/ares_library_init.c", "src/lib/str/ares_str.c"],
+                      support=["vp_rt.c", "valloc.c", "memloops.c", "szvp_ref.c", "lock_ghost.c", "dnsrec_abs.c"],
+                      unwind=12, unwindset=["generate_unique_qid.0:4"], backend="cadical", mem_gb=6,
+                      cbmc=["--unwinding-assertions"], witnesses=["end"],
+                      bound="generate_unique_qid with 2 live ids (all 16-bit values) and up to 3 draws; ares_apply_dns0x20 on "
+                            "the name '%s' for all random bit patterns" % nm))
+    return J
